@@ -7,6 +7,7 @@ import warnings
 from fractions import Fraction
 
 from harness.common import Run, coq_Q, coq_bool, coq_list, frac
+from harness.translate import c20_bench
 
 META = dict(
     technique="Coq theorems (list induction, stable-sort invariants, exact field algebra over Q) on a hand-written model of "
@@ -32,7 +33,14 @@ OBLIGATIONS = [
     "C20_last_rounded_ok", "C20_last_rounded_refuted",
     "C20_blup_normal_eq", "C20_blup_sound", "C20_penalised_ls_optimal", "C20_intercept_special_case", "C20_intercept_conditional_mean",
     "C20_personalize", "C20_personalize_defined", "C20_line",
+    # source-level tie (extension): the regenerated definitions of coq/gen/GenC20.v
+    "C20_src_feature_values", "C20_src_feature_values_any", "C20_src_estimators", "C20_src_constant_trajectory",
 ]
+
+def translate(run: Run) -> bool:
+    """T1: regenerate coq/gen/GenC20.v from the source of the five benchmark functions (fail closed)"""
+    return c20_bench.translate(run)
+
 
 HDR = ("From Coq Require Import QArith List Bool.\nFrom Leaspy Require Import Base.QAux Api.Bench Api.BenchTie.\n"
        "Import ListNotations.\nOpen Scope Q_scope.\n")
@@ -940,6 +948,7 @@ def _check(run: Run, thorough: bool):
 
 
 def main(run: Run):
+    translate(run)
     ok_p = run.prove("C20", OBLIGATIONS)
     run.assumptions += [
         "ages are finite and (for 'last'/'last-known' to be determined) pairwise distinct once stored: ingestion rejects NaN ages and "
